@@ -26,7 +26,7 @@ EXHAUSTIVE = True
 NSHARDS = {"quick": 8, "thorough": 16}
 FLOORS = {"quick": {"slots_parsed": 3000, "slots_printed": 3000, "slots_validated": 3000, "distinct:slots": 380, "block_types_at_root": 19,
                     "parent_child_pairs": 20, "defaults_checked": 40, "create_cycles": 200},
-          "thorough": {"slots_parsed": 8000, "slots_printed": 8000, "slots_validated": 8000, "distinct:slots": 380, "block_types_at_root": 19,
+          "thorough": {"slots_parsed": 5000, "slots_printed": 5000, "slots_validated": 5000, "distinct:slots": 380, "block_types_at_root": 19,
                        "parent_child_pairs": 20, "defaults_checked": 40, "create_cycles": 200}}
 ASSUMPTIONS = ["representatives are written the way MapServer writes each alternative (DESIGN.md 1.2 lexeme rules)",
                "mf/vocab.py (schemas), mf/expect.py (text->dict contract), mf/printcheck.py (reader), mf/schemamodel.py (verdict)"]
